@@ -90,6 +90,7 @@ func init() {
 			opts.StartFork = d.Bool()
 			opts.ActivityDefault = d.Bool()
 			opts.EmptyBranches = d.Bool()
+			opts.Fuse = d.Bool()
 			prog := GenProgram(d, opts)
 			c := &ProcCase{Prog: prog, Buf: d.N(17), Hold: d.N(3)}
 			c.Picks = drawPicks(d, 48)
@@ -112,6 +113,9 @@ func init() {
 			}
 			o.Nontrivial = r.Switches > 0 && nreq >= 2
 			probe(o, "condition-reads-upstream-task-result", c.Prog.DataConds > 0)
+			for _, t := range c.Prog.Tags {
+				probe(o, "program-has:"+t, true)
+			}
 			o.Tags = c.Prog.Tags
 			o.Sample = map[string]any{"program": c.Prog.Desc, "vars": c.Prog.Vars, "buf": c.Buf, "hold": c.Hold, "requests": tg.Requests, "ends": tg.M.Ends}
 			return o
